@@ -16,6 +16,8 @@ generic reductions of the axis (dtype, n, number of non-increasing pairs, first 
 c_0 + i*step, a handful of sampled (i, c_i, value) triples).
 Cases with decl > 0 use a Recording built by hand (samplerate = decl, duration = N/decl) over a file whose header rate x time
 expansion is something else.
+Kind chain: case["ops"] (resamp / filter / spec / order = rotate the dims so that time is first, middle or last) are applied one
+after the other to the loaded array; the axes of the final array are encoded.
 It computes no expected value and takes no decision.
 """
 from __future__ import annotations
@@ -28,6 +30,7 @@ import soundfile as sf
 
 from soundevent import data
 from soundevent.audio import compute_spectrogram, load_clip, load_recording, resample
+from soundevent.audio.operations import filter as audio_filter
 
 PROPERTY = "C15"
 TRACE = "T_AudioAxis"
@@ -57,6 +60,7 @@ _WAVDIR_ENV = "VERIF_C15_WAVDIR"
 _DEFAULT_WAVDIR = Path(__file__).resolve().parent.parent / ".work" / "C15_wav"
 
 
+CHAIN_INEXACT = False      # also generate resample chains with an inexact intermediate length (rejected on the unchanged tree: finding candidate)
 LONG_FR, LONG_TE, LONG_N = 30001, (10, 1), 13_000_000      # nominal 300.01 kHz, 43.3 s: beyond 2^23 frames and beyond 32 s
 
 
@@ -227,6 +231,34 @@ def _long(case, out):
     return out
 
 
+def _chain(case, src, ref0, out):
+    """Apply case["ops"] one after the other; encode the axes of the final array (and look at the source again)."""
+    arr = src
+    try:
+        for name, a, b in case["ops"]:
+            if name == "resamp":
+                arr = resample(arr, a)
+            elif name == "filter":
+                arr = audio_filter(arr, low_freq=a or None, high_freq=b or None)
+            elif name == "spec":
+                arr = compute_spectrogram(arr, window_size=a / case["tden"], hop_size=b / case["tden"])
+            elif name == "order":
+                dims = list(arr.dims)
+                arr = arr.transpose(*(dims[a % len(dims):] + dims[:a % len(dims)]))
+            else:
+                raise KeyError(name)
+        out["n"] = int(arr.sizes["time"])
+        out["axes"] = [_axis(arr.time.values, arr.time.attrs, ref0)]
+        if "frequency" in arr.dims:
+            out["axes"].append(_axis(arr.frequency.values, arr.frequency.attrs))
+    except Exception as ex:
+        out["raised"] = type(ex).__name__
+        out["n"] = 0
+        out["axes"] = []
+    out["reobs"] = [dict(_axis(src.time.values, src.time.attrs), role="source")]
+    return out
+
+
 _HIST_SEQ = [0]
 
 
@@ -358,6 +390,8 @@ def _observe(case, rec, out):
         return out
     out["src_n"] = int(src.sizes["time"])
     ref0 = src.time.values[0] if src.sizes["time"] else None
+    if kind == "chain":
+        return _chain(case, src, ref0, out)
     # derived-twice cases: resample the source to case["pre"] first and set the result aside; the case's operation
     # is then applied to the SAME loaded array
     first = None
@@ -387,10 +421,10 @@ def _observe(case, rec, out):
 
 
 # ----------------------------------------------------------------------------- larger universes (random, seeded)
-def _case(kind, fr, te, tden, ch, n, s=0, e=0, src="clip", w=0, h=0, target=0, fmt="PCM_16", pre=0, hist="none", n2=None, base2=0, decl=0):
+def _case(kind, fr, te, tden, ch, n, s=0, e=0, src="clip", w=0, h=0, target=0, fmt="PCM_16", pre=0, hist="none", n2=None, base2=0, decl=0, ops=()):
     return {"kind": kind, "fr": fr, "te": list(te), "tden": tden, "ch": ch, "N": n, "s": s, "e": e,
             "src": src, "w": w, "h": h, "target": target, "pre": pre, "hist": hist, "N2": n if n2 is None else n2,
-            "base2": base2, "decl": decl, "fmt": fmt}
+            "base2": base2, "decl": decl, "ops": [list(o) for o in ops], "fmt": fmt}
 
 
 def _hist(rng, n):
@@ -458,6 +492,66 @@ def random_cases(rng, tier):
         hist, n2, base2 = _hist(rng, n)
         yield _case("rec", fr, te, 4 * (fr * te[0] // te[1]), rng.choice([1, 2, 3]), n,
                     src="rec", fmt=rng.choice(["PCM_16", "FLOAT"]), hist=hist, n2=n2, base2=base2)
+    # operation chains on one loaded array.  Only chains whose INTERMEDIATE lengths are exact (N * t1 / sr an integer) are
+    # generated: with an inexact intermediate length the implementation itself drifts by more than a step on the final array
+    # (finding candidate TimeWithinStep/chain, e.g. 101 frames 16000 -> 8000 -> 48000), see CHAIN_INEXACT.
+    import math as _m
+    chains = [  # (fr, te, ch, N, ops)
+        (22050, (2, 1), 1, 64, [("resamp", 22050, 0), ("resamp", 16000, 0)]),
+        (16000, (1, 1), 2, 64, [("resamp", 8000, 0), ("resamp", 12000, 0)]),
+        (22050, (2, 1), 1, 128, [("resamp", 22050, 0), ("filter", 0, 4000), ("resamp", 16000, 0)]),
+        (16000, (1, 1), 1, 96, [("resamp", 8000, 0), ("filter", 500, 3000), ("resamp", 12000, 0)]),
+        (8, (1, 1), 2, 16, [("order", 1, 0), ("resamp", 12, 0)]),
+        (8, (1, 1), 3, 20, [("order", 1, 0), ("resamp", 4, 0), ("resamp", 6, 0)]),
+        (8, (1, 1), 1, 40, [("spec", 16, 8), ("resamp", 8, 0)]),
+        (8, (1, 1), 2, 40, [("spec", 16, 8), ("order", 1, 0), ("resamp", 8, 0)]),
+        (8, (1, 1), 2, 40, [("spec", 16, 8), ("order", 2, 0), ("resamp", 6, 0)]),
+        (22050, (1, 1), 1, 600, [("spec", 4 * 64, 4 * 32), ("resamp", 1000, 0)]),
+    ]
+    if CHAIN_INEXACT:
+        chains.append((16000, (1, 1), 1, 101, [("resamp", 8000, 0), ("resamp", 48000, 0)]))
+    for _ in range(60 if tier == "quick" else 600):
+        fr, te = rng.choice([(8, (1, 1)), (16, (1, 1)), (16, (1, 2)), (16000, (1, 1)), (22050, (2, 1)), (22050, (1, 1)), (24000, (2, 1)),
+                             (8000, (1, 1)), (10, (1, 1)), (4410, (10, 1))])
+        sr = fr * te[0] // te[1]
+        ch = rng.choice([1, 2, 3])
+        kind_ = rng.random()
+        ops = []
+        if kind_ < 0.55:                      # resample (-> filter) -> resample, exact intermediate length
+            t1 = rng.choice([sr // 2, sr // 4, 2 * sr, 3 * sr // 2] if sr % 4 == 0 else [sr // 2, 2 * sr] if sr % 2 == 0 else [2 * sr])
+            unit = sr // _m.gcd(sr, t1)       # N must be a multiple of this
+            n = unit * rng.randrange(max(1, 48 // unit), max(2, 200 // unit) + 1)
+            t2 = rng.choice([t1 // 2, 2 * t1, 3 * t1 // 4, rng.randrange(max(2, t1 // 3), 2 * t1 + 1), 16000, 8000] if t1 > 64 else
+                            [max(2, t1 // 2), 2 * t1, rng.randrange(2, 2 * t1 + 2)])
+            if rng.random() < 0.3:
+                ops.append(("order", 1, 0))
+            ops.append(("resamp", t1, 0))
+            if rng.random() < 0.4 and n * t1 // sr >= 64 and t1 >= 16:
+                ops.append(("filter", rng.choice([0, max(1, t1 // 16)]), max(2, t1 // 4)))
+            ops.append(("resamp", t2, 0))
+            if n * t1 // sr * t2 > 3000 * t1 or n * t1 // sr < 2:
+                continue
+        else:                                 # spectrogram (time in the middle / first / last) -> resample along time
+            n = rng.randrange(24, 160)
+            hop = rng.randrange(1, 6)
+            w = hop * rng.choice([1, 2, 3])
+            ops = [("spec", 4 * w, 4 * hop)]
+            r = rng.choice([0, 0, 1, 2])
+            if r:
+                ops.append(("order", r, 0))
+            ops.append(("resamp", max(1, rng.choice([sr // hop, 2 * sr // hop, sr // (2 * hop), sr // hop + 1, rng.randrange(1, 2 * sr // hop + 2)])), 0))
+        # resample chains need the exact source length, so they start from load_recording; spectrogram chains also from clips
+        src = "rec" if kind_ < 0.55 else rng.choice(["rec", "clip"])
+        s, e = (0, 0) if src == "rec" else (4 * rng.randrange(0, 5) + rng.randrange(0, 4), 0)
+        if src == "clip":
+            e = s + 4 * n
+            chains.append((fr, te, ch, n + 8, ops, s, e))
+        else:
+            chains.append((fr, te, ch, n, ops))
+    for cdef in chains:
+        fr, te, ch, n, ops = cdef[:5]
+        s, e = cdef[5:] if len(cdef) > 5 else (0, 0)
+        yield _case("chain", fr, te, 4 * (fr * te[0] // te[1]), ch, n, s, e, src="clip" if e else "rec", ops=ops)
     # Recordings built by hand whose samplerate differs from header rate x time expansion
     for _ in range(60 if tier == "quick" else 500):
         fr, te, decl = rng.choice([(5512, (8, 1), 44100), (83333, (3, 1), 250000), (8000, (1, 1), 8001), (8, (1, 1), 16), (12, (1, 1), 8),
@@ -538,6 +632,8 @@ def random_cases(rng, tier):
 
 def nontrivial(o):
     r = o["out"]
+    if o["in"]["kind"] == "chain":
+        return r.get("raised", "x") == "" and len(o["in"]["ops"]) >= 2
     if r.get("raised", "x") != "":
         return False
     if o["in"]["kind"] in ("long", "longclip"):
